@@ -561,6 +561,8 @@ INLINE_PROVIDED = r'''
             return NULL;
         implements = PyObject_IsTrue(r);
         Py_DECREF(r);
+        if (implements < 0)
+            return NULL;
     }
 '''
 
@@ -653,7 +655,6 @@ IB__adapt__(PyObject* self, PyObject* obj)
     PyTypeObject *specification_base_class;
     int implements;
     int i;
-    int l;
 
     module = _get_module(Py_TYPE(self));
 
@@ -686,9 +687,13 @@ checked:
     PyTuple_SET_ITEM(args, 1, obj);
 
     adapter_hooks = _get_adapter_hooks(Py_TYPE(self));
-    l = PyList_GET_SIZE(adapter_hooks);
-    for (i = 0; i < l; i++) {
-        adapter = PyObject_CallObject(PyList_GET_ITEM(adapter_hooks, i), args);
+    for (i = 0; i < PyList_GET_SIZE(adapter_hooks); i++) {
+        PyObject* hook;
+
+        hook = PyList_GET_ITEM(adapter_hooks, i);
+        Py_INCREF(hook);
+        adapter = PyObject_CallObject(hook, args);
+        Py_DECREF(hook);
         if (adapter == NULL || adapter != Py_None) {
             Py_DECREF(args);
             return adapter;
